@@ -164,6 +164,7 @@ do_case(const struct rc_day *p, int c, struct dt_dt_s v, int u, int n, const str
 	int ok[NOBS];
 	int bad = 0;
 	long mi;
+	int wkt;
 	unsigned int daisy;
 	char sign = n > 0 ? '+' : n < 0 ? '-' : '0';
 
@@ -175,13 +176,12 @@ do_case(const struct rc_day *p, int c, struct dt_dt_s v, int u, int n, const str
 		return 0;
 	}
 	t = rc_get((int)trd);
-	if (c == C_BIZDA && !t->isbd) {
-		/* reading: the target has no name in the bizda calendar */
+	/* a bizda value plus calendar days whose target is a Saturday/Sunday: the day exists on the time
+	 * line and %F / the day count can give it, only the bizda calendar has no name for it - the
+	 * default output is then not judged (counted), the other observations are; own class keys */
+	wkt = cal_base[c] == C_BIZDA && !t->isbd;
+	if (wkt) {
 		++*c_skip_biz;
-		if (replay) {
-			printf("  target %04d-%02d-%02d is a weekend day: no bizda name, outside the property\n", t->y, t->m, t->d);
-		}
-		return 0;
 	}
 	r = apply_durs(v, ds);
 	++*c_eval;
@@ -199,7 +199,7 @@ do_case(const struct rc_day *p, int c, struct dt_dt_s v, int u, int n, const str
 	ok[O_DAISY] = !dt_unk_p(r) && daisy == (unsigned int)trd + 1U;
 	memset(got[O_DFLT], 0, sizeof(got[O_DFLT]));
 	dt_strfdt(got[O_DFLT], sizeof(got[O_DFLT]), NULL, r);
-	ok[O_DFLT] = dflt_agrees(c, t, got[O_DFLT]);
+	ok[O_DFLT] = wkt || dflt_agrees(c, t, got[O_DFLT]);
 	memset(got[O_F], 0, sizeof(got[O_F]));
 	dt_strfdt(got[O_F], sizeof(got[O_F]), "%F", r);
 	ok[O_F] = ymd_agrees(t, got[O_F]);
@@ -241,7 +241,7 @@ do_case(const struct rc_day *p, int c, struct dt_dt_s v, int u, int n, const str
 		if (!ok[o]) {
 			bad++;
 		}
-		snprintf(key, sizeof(key), "add cal=%s unit=%s sign=%c obs=%s", cal_name[c], unit_name[u], sign, obs_name[o]);
+		snprintf(key, sizeof(key), "add cal=%s unit=%s sign=%c%s obs=%s", cal_name[c], unit_name[u], sign, wkt ? " target=weekend" : "", obs_name[o]);
 		if (!ok[o] && !ex_viol_known(key, (double)trd)) {
 			char text[48], cas[64], cmd[256], dtxt[32], exp[64];
 			cal_text(c, p, text, sizeof(text));
@@ -269,6 +269,178 @@ do_case(const struct rc_day *p, int c, struct dt_dt_s v, int u, int n, const str
 	}
 	return bad;
 }
+
+/* ---- ROLES: which argument is the date, which the duration ----
+ * dadd [DATE/TIME] [DURATION]: "If DATE/TIME is omitted but DURATION is given, read a list
+ * of DATE/TIMEs from stdin".  Durations are [+-]N<unit> (units.texi), the sign is optional
+ * (dadd.texi: `dadd 2w2d`, `-1h6m`).  Under an input format that starts with a number
+ * (-i %s, %d, %j, %H) a duration argument looks like the beginning of a value; the tool must
+ * still take it for the duration and the stdin lines for the dates.  Enumerated through the
+ * dadd binary: every (format, duration text) x a list of values, values on stdin and value
+ * as argument; oracle: the model (value + duration), no library call. */
+struct rfmt_s {
+	const char *ifmt, *base;
+	int kind;	/* 0 epoch seconds, 1 day of month, 2 day of year, 3 hour */
+};
+static const struct rfmt_s rfmts[] = {
+	{"%s", NULL, 0}, {"%d", "2012-03-01", 1}, {"%j", "2012-01-01", 2}, {"%H", NULL, 3},
+};
+struct rdur_s {
+	const char *txt;
+	long secs;	/* the duration in seconds (all units here have a fixed length) */
+	const char *unit;
+};
+static const struct rdur_s rdurs[] = {
+	{"1d", 86400, "d"}, {"+1d", 86400, "d"}, {"-1d", -86400, "d"},
+	{"2w", 1209600, "w"}, {"+2w", 1209600, "w"}, {"-2w", -1209600, "w"},
+	{"2w2d", 1382400, "w,d"}, {"-1w1d", -691200, "w,d"},
+	{"1h", 3600, "h"}, {"+1h", 3600, "h"}, {"-1h", -3600, "h"},
+	{"61m", 3660, "m"}, {"+61m", 3660, "m"}, {"-61m", -3660, "m"},
+	{"90s", 90, "s"}, {"+90s", 90, "s"}, {"-90s", -90, "s"},
+	{"1rs", 1, "rs"}, {"+1rs", 1, "rs"}, {"-1rs", -1, "rs"},
+	{"-1h6m", -3960, "h,m"},
+};
+#define NRFMT	((int)(sizeof(rfmts) / sizeof(*rfmts)))
+#define NRDUR	((int)(sizeof(rdurs) / sizeof(*rdurs)))
+
+static int
+role_applies(const struct rfmt_s *f, const struct rdur_s *d)
+{
+	int dayunit = d->unit[0] == 'd' || d->unit[0] == 'w';
+	return f->kind == 0 || (f->kind == 3 ? !dayunit : dayunit);
+}
+
+/* the I-th value of format F and what the model expects after adding SECS; 0 when there is no I-th value */
+static int
+role_value(const struct rfmt_s *f, int i, long secs, char *val, size_t vsz, char *exp, size_t esz)
+{
+	switch (f->kind) {
+	case 0: {
+		/* 12:34:56 on the 60 days from 2012-02-15: no leap second near */
+		long long n, t;
+		const struct rc_day *q;
+		long tod;
+		if (i >= 60) {
+			return 0;
+		}
+		n = ((long long)rc_get(rc_rd(2012, 2, 15) + i)->unixd) * 86400LL + 45296LL;
+		t = n + secs;
+		q = rc_get((int)(RC_RD_1970 + t / 86400));
+		tod = (long)(t % 86400);
+		snprintf(val, vsz, "%lld", n);
+		snprintf(exp, esz, "%04d-%02d-%02dT%02ld:%02ld:%02ld", q->y, q->m, q->d, tod / 3600, tod / 60 % 60, tod % 60);
+		return 1;
+	}
+	case 1:
+	case 2: {
+		const struct rc_day *q;
+		int nv = f->kind == 1 ? 28 : 365;
+		if (i >= nv) {
+			return 0;
+		}
+		q = rc_get((f->kind == 1 ? rc_rd(2012, 3, 1) : rc_rd(2012, 1, 1)) + i + (int)(secs / 86400));
+		snprintf(val, vsz, f->kind == 1 ? "%02d" : "%03d", i + 1);
+		if (f->kind == 1) {
+			snprintf(exp, esz, "%04d-%02d-%02d", q->y, q->m, q->d);
+		} else {
+			snprintf(exp, esz, "%04d-%03d", q->y, q->yday);
+		}
+		return 1;
+	}
+	default: {
+		/* hours 02..20: no wrap over midnight with these durations */
+		long t;
+		if (i >= 19) {
+			return 0;
+		}
+		t = (i + 2) * 3600L + secs;
+		snprintf(val, vsz, "%02d", i + 2);
+		snprintf(exp, esz, "%02ld:%02ld:%02ld", t / 3600, t / 60 % 60, t % 60);
+		return 1;
+	}
+	}
+}
+
+static void
+role_job(int job)
+{
+	const struct rfmt_s *f = rfmts + job / NRDUR;
+	const struct rdur_s *d = rdurs + job % NRDUR;
+	const char *rundir = getenv("VERIF_RUNDIR");
+	char fin[512], fout[512], cmd[1600], base[64] = "", line[128], val[32], exp[64], key[128], cas[64];
+	char sign = d->txt[0] == '+' ? '+' : d->txt[0] == '-' ? '-' : 'n';
+	FILE *fp;
+	int i;
+	EX_CTR(c_bind, "cli_binding_replays");
+	EX_CTR(c_bindln, "cli_binding_lines");
+	EX_CTR(c_roles, "role cases (format, duration text, value, stdin|argument) compared with the model");
+
+	if (rundir == NULL || ex.tree == NULL || !role_applies(f, d)) {
+		return;
+	}
+	if (f->base) {
+		snprintf(base, sizeof(base), " -b %s", f->base);
+	}
+	snprintf(fin, sizeof(fin), "%s/c03role.%d.in", rundir, job);
+	snprintf(fout, sizeof(fout), "%s/c03role.%d.out", rundir, job);
+	/* (a) values on stdin, the duration is the only argument */
+	if ((fp = fopen(fin, "w")) == NULL) {
+		return;
+	}
+	for (i = 0; role_value(f, i, d->secs, val, sizeof(val), exp, sizeof(exp)); i++) {
+		fprintf(fp, "%s\n", val);
+	}
+	fclose(fp);
+	snprintf(cmd, sizeof(cmd), "'%s/src/dadd'%s -i '%s' -- %s < '%s' > '%s' 2>/dev/null", ex.tree, base, f->ifmt, d->txt, fin, fout);
+	if (system(cmd)) {
+		;
+	}
+	++*c_bind;
+	snprintf(key, sizeof(key), "roles mode=stdin ifmt=%s unit=%s sign=%s", f->ifmt, d->unit, sign == 'n' ? "none" : sign == '+' ? "+" : "-");
+	if ((fp = fopen(fout, "r")) != NULL) {
+		for (i = 0; role_value(f, i, d->secs, val, sizeof(val), exp, sizeof(exp)); i++) {
+			if (!fgets(line, sizeof(line), fp)) {
+				line[0] = '\0';
+			}
+			line[strcspn(line, "\n")] = '\0';
+			++*c_bindln;
+			++*c_roles;
+			ex_outcome(ex_hash(line, strlen(line)));
+			if (strcmp(line, exp)) {
+				snprintf(cas, sizeof(cas), "role %d", job);
+				snprintf(cmd, sizeof(cmd), "echo %s | dadd%s -i %s -- %s", val, base, f->ifmt, d->txt);
+				ex_viol(key, i, cas, cmd, "value '%s' on stdin read with -i %s, duration argument '%s': printed '%s', value plus duration is '%s'",
+					val, f->ifmt, d->txt, line, exp);
+			}
+		}
+		fclose(fp);
+	}
+	unlink(fin);
+	unlink(fout);
+	/* (b) value and duration both as arguments: three values */
+	snprintf(key, sizeof(key), "roles mode=args ifmt=%s unit=%s sign=%s", f->ifmt, d->unit, sign == 'n' ? "none" : sign == '+' ? "+" : "-");
+	for (i = 0; i < 3 && role_value(f, i * 7, d->secs, val, sizeof(val), exp, sizeof(exp)); i++) {
+		FILE *pp;
+		snprintf(cmd, sizeof(cmd), "'%s/src/dadd'%s -i '%s' %s -- %s 2>/dev/null", ex.tree, base, f->ifmt, val, d->txt);
+		line[0] = '\0';
+		if ((pp = popen(cmd, "r")) != NULL) {
+			if (!fgets(line, sizeof(line), pp)) {
+				line[0] = '\0';
+			}
+			pclose(pp);
+		}
+		line[strcspn(line, "\n")] = '\0';
+		++*c_bind;
+		++*c_roles;
+		if (strcmp(line, exp)) {
+			snprintf(cas, sizeof(cas), "role %d", job);
+			snprintf(cmd, sizeof(cmd), "dadd%s -i %s %s -- %s", base, f->ifmt, val, d->txt);
+			ex_viol(key, i, cas, cmd, "value '%s' read with -i %s and duration '%s' as arguments: printed '%s', value plus duration is '%s'",
+				val, f->ifmt, d->txt, line, exp);
+		}
+	}
+}
+#define NROLEJOBS	(NRFMT * NRDUR)
 
 /* ---- binding: the dadd binary over all days ---- */
 struct bind_s {
@@ -443,13 +615,20 @@ main(int argc, char *argv[])
 	c_trans = ex_ctr("transitions");
 	c_nontriv = ex_ctr("nontrivial");
 	c_skip_range = ex_ctr("skipped:result outside 1601-01-01..4095-12-31");
-	c_skip_biz = ex_ctr("skipped:bizda value plus calendar days lands on a weekend day (no bizda name)");
+	c_skip_biz = ex_ctr("bizda value plus calendar days landing on a weekend day (default output not judged: no bizda name; day count and %F are)");
 	c_noncanon = ex_ctr("results not bit-identical with the parsed text of the target (inverse applied explicitly)");
 	c_memo = ex_ctr("results identical to an already observed value for the same target (not observed again)");
 	mk_tables();
 
 	if (ex.cas) {
 		int c, u, n, rd, rcv;
+		if (!strncmp(ex.cas, "role ", 5)) {
+			int job = atoi(ex.cas + 5);
+			if (job >= 0 && job < NROLEJOBS) {
+				role_job(job);
+			}
+			return ex_replay_result(ex.nviol != 0, "roles job %d", job);
+		}
 		if (!strncmp(ex.cas, "spell ", 6)) {
 			check_spellings(spellings, NSPELL);
 			return ex_replay_result(ex.nviol != 0, "documented duration spellings");
@@ -485,9 +664,12 @@ main(int argc, char *argv[])
 		"from the single steps whenever the result is bit-identical with the parser's value of the target's text (that value's transitions are explored "
 		"in the target state), otherwise -n is applied explicitly to the result and must return to the start (obs=inverse, counted); a result whose 16 bytes "
 		"equal a value already observed to agree for the same (calendar, target) in the same year slice is not observed again (counted). "
-		"readings: results outside 1601..4095 are outside the property (skipped, counted); a bizda value plus calendar days is judged "
-		"only when the target is a Monday-Friday day (a weekend day has no bizda name; skipped, counted). "
+		"readings: results outside 1601..4095 are outside the property (skipped, counted); a bizda (or bizda-B: business days "
+		"counted before ultimo, YYYY-MM-DDB) value plus calendar days whose target is a Saturday/Sunday is judged by day count, %%F and the explicit inverse only (the day exists, "
+		"the bizda calendar just has no name for it; keys carry target=weekend). "
 		"the documented spellings of the units (nD nW upper/lower case, unit d omitted, sign omitted) must parse to the same duration as the canonical text. "
+		"ROLES section (dadd binary): under the numeric input formats -i %%s, %%d, %%j, %%H a duration argument ([+-]N<unit>, sign optional; d w h m s rs and composites) must be taken "
+		"for the duration and the stdin lines (or the first argument) for the values; oracle = value + duration by the model. "
 		"non-trivial = the target lies in another month, year or ISO week-year than the start", NCAL);
 	ex_meta("bound", "%s tier: all 911,280 days x %d calendars x ( +-Nd with N in [0,%d] + {59,60,365,366,367,730,731,1461} (%d counts) ; "
 		"+-Nw with N in [0,%d] + {52,53,104,105,209,261} (%d counts) ); on the seam days (the four 8-year windows 1601-08 1897-1904 "
@@ -547,6 +729,11 @@ main(int argc, char *argv[])
 					  p->y, p->m, p->d, p->isoy, p->isow, p->wd, p->yday, p->bd, p->isbd ? "" : " weekend", NCAL,
 					  nsmall[U_D] + nsmall[U_W] + (seam ? nlarge[U_D] + nlarge[U_W] : 0), seam ? " (seam day)" : "");
 			}
+		}
+	}
+	for (int job = 0; job < NROLEJOBS && !ex_expired_now(); job++) {
+		if (ex_mine((uint64_t)job)) {
+			role_job(job);
 		}
 	}
 	{
